@@ -3,21 +3,35 @@
 (* Union of all codec modules: one expectation function Exp(op, a) used by *)
 (* both conformance directions, one law predicate and the bounded grids.   *)
 (***************************************************************************)
-EXTENDS Pus
+EXTENDS Pus, Cfdp
 
 Exp(op, a) == IF op \in SpOps THEN SpExp(op, a)
               ELSE IF op \in PusOps THEN PusExp(op, a)
+              ELSE IF op \in CfdpOps THEN CfdpExp(op, a)
               ELSE [unknown |-> op]
 
 Law(op, a) == IF op \in SpOps THEN SpLaw(op, a)
               ELSE IF op \in PusOps THEN PusLaw(op, a)
+              ELSE IF op \in CfdpOps THEN CfdpLaw(op, a)
               ELSE TRUE
 
-NParts(area) == CASE area = "sp" -> SpNParts
+CONSTANT Tier
+
+NParts(area) == CASE area = "cfdphdr" -> CfdpHdrNParts
+                  [] area = "tlv" -> TlvNParts
+                  [] area = "pdu" -> 14
+                  [] area = "fd" -> 2
+                  [] area = "fac" -> FacNParts
+                  [] area = "sp" -> SpNParts
                   [] area = "tc" -> TcNParts
                   [] area = "tm" -> TmNParts
 
-GridPart(area, i) == CASE area = "sp" -> SpGridPart(i)
+GridPart(area, i) == CASE area = "cfdphdr" -> CfdpHdrGridPart(i, Tier)
+                       [] area = "tlv" -> TlvGridPart(i)
+                       [] area = "pdu" -> PduGridPart(IF i <= 7 THEN i ELSE i + 1)
+                       [] area = "fd" -> PduGridPart(8 * i)
+                       [] area = "fac" -> FacGridPart(i)
+                       [] area = "sp" -> SpGridPart(i)
                        [] area = "tc" -> TcGridPart(i)
                        [] area = "tm" -> TmGridPart(i)
 =============================================================================
